@@ -3,6 +3,7 @@ package main
 // SSA -> passive-form verification conditions.
 
 import (
+	"sync"
 	"fmt"
 	"go/token"
 	"go/types"
@@ -42,6 +43,7 @@ type Place struct {
 	// element of a sequence value / buffer
 	Seq *Val
 	Idx string
+	AllocBlk *ssa.BasicBlock // block of the Alloc that created the root cell (nil: pre-existing or unknown)
 }
 
 type Buf struct {
@@ -78,9 +80,11 @@ type Obl struct {
 	Src    string
 	Pos    string
 	Extra  []string // extra assumptions local to this obligation
+	File   string   // contract file of the clause (lemma visibility); empty = the function's contract file
 }
 
 type FT struct {
+	mu      sync.Mutex
 	g       *Gen
 	name    string
 	axUpTo  *Axiom
@@ -99,8 +103,11 @@ type FT struct {
 	modular map[string]bool
 	kindCnt map[string]int
 	loopMod map[*ssa.BasicBlock]map[string]bool // pass-1 result
+	frameOK map[*ssa.BasicBlock]map[string]bool // pass-1 result: loops x heaps that only get cells allocated inside the loop written
 	pass    int
 	written map[*ssa.BasicBlock]map[string]bool
+	oldWrite map[*ssa.BasicBlock]map[string]bool        // writes that may hit cells allocated outside the writing loop
+	freshIn  map[*ssa.BasicBlock]map[string][]*ssa.BasicBlock // writes to cells allocated in the given blocks
 	stack   []*ssa.Function
 	mutSite []site
 	escSite []site
@@ -108,7 +115,16 @@ type FT struct {
 	entry   *State
 	axUsed  map[string]bool
 	finfo   []factInfo
+	covers  []cover
+	pendingAlloc *ssa.BasicBlock // allocation site of the cell written by the next stateSet (nil = unknown / pre-existing)
 	axSkipped map[string]string
+}
+
+// cover: a program point that must be reachable under the assumed contracts (guards against vacuous proofs)
+type cover struct {
+	Name   string
+	Guard  string
+	NFacts int
 }
 
 type site struct {
@@ -135,6 +151,7 @@ type frame struct {
 	tag     string // inline tag for obligation names
 	phiIn   map[*ssa.Phi]map[*ssa.BasicBlock]Val
 	loopFrames map[*ssa.BasicBlock][]loopFrame
+	pendingLoopCover []*ssa.BasicBlock
 	top     bool
 }
 
@@ -207,7 +224,29 @@ func (ft *FT) stateSet(fr *frame, st *State, name, sort, term string) {
 	st.vars[name] = term
 	if fr != nil && fr.curBlk != nil {
 		ft.noteWrite(fr.curBlk, name)
+		if strings.HasPrefix(name, "H|") {
+			ft.noteHeapWrite(fr.curBlk, name, ft.pendingAlloc)
+		}
 	}
+	ft.pendingAlloc = nil
+}
+
+// noteHeapWrite records where the written cell was allocated (nil = not by an Alloc of this translation).
+func (ft *FT) noteHeapWrite(b *ssa.BasicBlock, name string, allocBlk *ssa.BasicBlock) {
+	if b == nil {
+		return
+	}
+	if allocBlk == nil {
+		if ft.oldWrite[b] == nil {
+			ft.oldWrite[b] = map[string]bool{}
+		}
+		ft.oldWrite[b][name] = true
+		return
+	}
+	if ft.freshIn[b] == nil {
+		ft.freshIn[b] = map[string][]*ssa.BasicBlock{}
+	}
+	ft.freshIn[b][name] = append(ft.freshIn[b][name], allocBlk)
 }
 
 func (ft *FT) noteWrite(b *ssa.BasicBlock, name string) {
@@ -252,13 +291,16 @@ func isRepoFunc(fn *ssa.Function) bool {
 // TranslateFunction produces the obligations for fn against its contract.
 func (g *Gen) TranslateFunction(fn *ssa.Function, c *Contract) *FT {
 	var loopMod map[*ssa.BasicBlock]map[string]bool
+	frameOK := map[*ssa.BasicBlock]map[string]bool{}
 	var ft *FT
 	for pass := 1; pass <= 2; pass++ {
 		ft = &FT{g: g, fn: fn, name: ftName(fn, c), c: c, ssorts: map[string]string{}, assumed: map[string]bool{}, havoced: map[string]bool{}, inlined: map[string]bool{},
-			modular: map[string]bool{}, kindCnt: map[string]int{}, loopMod: loopMod, pass: pass, written: map[*ssa.BasicBlock]map[string]bool{}, init0: map[string]string{}, axUsed: map[string]bool{}}
+			modular: map[string]bool{}, kindCnt: map[string]int{}, loopMod: loopMod, pass: pass, written: map[*ssa.BasicBlock]map[string]bool{}, init0: map[string]string{}, axUsed: map[string]bool{},
+			oldWrite: map[*ssa.BasicBlock]map[string]bool{}, freshIn: map[*ssa.BasicBlock]map[string][]*ssa.BasicBlock{}, frameOK: frameOK}
 		ft.run()
 		if pass == 1 {
 			loopMod = ft.computeLoopMods()
+			frameOK = ft.frameOK
 		}
 	}
 	return ft
@@ -281,6 +323,26 @@ func (ft *FT) computeLoopMods() map[*ssa.BasicBlock]map[string]bool {
 				}
 			}
 			res[h] = m
+			// heaps whose writes inside the loop only touch cells allocated inside the loop
+			fo := map[string]bool{}
+			for k := range m {
+				if !strings.HasPrefix(k, "H|") {
+					continue
+				}
+				ok := true
+				for b := range body {
+					if ft.oldWrite[b][k] {
+						ok = false
+					}
+					for _, ab := range ft.freshIn[b][k] {
+						if !body[ab] {
+							ok = false
+						}
+					}
+				}
+				fo[k] = ok
+			}
+			ft.frameOK[h] = fo
 		}
 	}
 	return res
@@ -394,9 +456,25 @@ func (ft *FT) run() {
 		return
 	}
 	exitSt, results, anyRet := ft.mergeReturns(fr)
-	_ = anyRet
+	ft.covers = append(ft.covers, cover{ft.name + "#cover(return)", anyRet, len(ft.facts)})
+	if n := len(results); n > 0 && ft.g.reg.SortOf(results[n-1].Ty) == "Iface" && types.Identical(results[n-1].Ty, types.Universe.Lookup("error").Type()) {
+		// the success path must be reachable too (unless the contract says the function always fails)
+		ft.covers = append(ft.covers, cover{ft.name + "#cover(return nil error)", "(and " + anyRet + " (= (itag " + results[n-1].T + ") 0))", len(ft.facts)})
+	}
 	if ft.c != nil {
 		penv := fr.specEnv(exitSt, entrySt, results)
+		for i, cl := range ft.c.Covers {
+			t, err := penv.EvalBool(cl.E)
+			if err != nil {
+				ft.unsupported("cover %q: %v", cl.Src, err)
+				continue
+			}
+			label := fmt.Sprint(i + 1)
+			if cl.Name != "" {
+				label = cl.Name
+			}
+			ft.covers = append(ft.covers, cover{ft.name + "#cover(" + label + ")", "(and " + anyRet + " " + t + ")", len(ft.facts)})
+		}
 		for i, cl := range ft.c.Ensures {
 			var hints []string
 			penv.hints = &hints
@@ -421,7 +499,33 @@ func (ft *FT) run() {
 // frameObligations: every state variable not listed in assigns is unchanged.
 func (ft *FT) frameObligations(fr *frame, entry, exit *State, guard string) {
 	allowed := map[string]bool{}
+	cellOK := map[string][]string{} // heap var -> references whose cell may change ("assigns *p")
+	env := fr.specEnv(entry, entry, nil)
 	for _, a := range ft.c.Assigns {
+		if strings.HasPrefix(a, "*") {
+			pv, ok := env.vars[strings.TrimSpace(a[1:])]
+			if !ok || pv.Ty == nil || pv.Ty.Go == nil {
+				ft.unsupported("assigns %s: unknown parameter", a)
+				continue
+			}
+			var elem types.Type
+			ref := pv.T
+			if pt, ok := pv.Ty.Go.Underlying().(*types.Pointer); ok {
+				elem = pt.Elem()
+			} else if ft.c.SpecDyn != nil {
+				if pt, ok := ft.c.SpecDyn.Underlying().(*types.Pointer); ok {
+					elem = pt.Elem()
+					ref = "(ipl " + pv.T + ")"
+				}
+			}
+			if elem == nil {
+				ft.unsupported("assigns %s: not a pointer", a)
+				continue
+			}
+			hv := "H|" + ft.g.reg.SortOf(elem)
+			cellOK[hv] = append(cellOK[hv], ref)
+			continue
+		}
 		allowed[ft.assignVar(a, fr)] = true
 	}
 	var names []string
@@ -444,7 +548,11 @@ func (ft *FT) frameObligations(fr *frame, entry, exit *State, guard string) {
 		if strings.HasPrefix(k, "H|") {
 			// fresh cells may be written: only pre-existing cells must be unchanged
 			nx := ft.stateGet(entry, "$next", "Int")
-			ft.addObl(fr, "assigns", k, guard, fmt.Sprintf("(forall ((r Int)) (=> (< r %s) (= (select %s r) (select %s r))))", nx, post, pre), "assigns", nil, nil)
+			except := ""
+			for _, r := range cellOK[k] {
+				except += " (not (= r " + r + "))"
+			}
+			ft.addObl(fr, "assigns", k, guard, fmt.Sprintf("(forall ((r Int)) (=> (and (< r %s)%s) (= (select %s r) (select %s r))))", nx, except, post, pre), "assigns", nil, nil)
 			continue
 		}
 		ft.addObl(fr, "assigns", k, guard, "(= "+post+" "+pre+")", "assigns", nil, nil)
@@ -777,6 +885,7 @@ func (fr *frame) store(p *Place, v string, st *State) {
 	nh := ft.fresh("h", hs)
 	cell := "(select " + h + " " + p.Ref + ")"
 	ft.fact("(= " + nh + " (store " + h + " " + p.Ref + " " + ft.updatePath(cell, p.Path, v) + "))")
+	ft.pendingAlloc = p.AllocBlk
 	ft.stateSet(fr, st, p.Var, hs, nh)
 }
 
@@ -885,6 +994,17 @@ func (ft *FT) runFrame(fr *frame, st *State, entryGuard string) {
 			fr.instr(in, cur, reach)
 		}
 		fr.out[b] = cur
+		for _, h := range fr.pendingLoopCover {
+			if h == b {
+				for _, su := range b.Succs {
+					if loops[b][su] && su != b {
+						if e, ok := fr.edge[[2]*ssa.BasicBlock{b, su}]; ok {
+							ft.covers = append(ft.covers, cover{fmt.Sprintf("%s#cover(loop %d body)", ft.name, fr.loopOrd[b]), e, len(ft.facts)})
+						}
+					}
+				}
+			}
+		}
 		// back edges out of b: invariant preservation
 		for _, s := range b.Succs {
 			if s.Dominates(b) {
@@ -960,7 +1080,7 @@ func (fr *frame) loopHeader(h *ssa.BasicBlock, body map[*ssa.BasicBlock]bool, st
 			ft.unsupported("loop %d invariant %q in %s: %v", ord, cl.Src, fr.fn, err)
 			continue
 		}
-		ft.addObl(fr, "inv-init", fmt.Sprintf("%sL%d.%d", fr.tag, ord, i+1), reach, t, cl.Src, cl.Tags, hints)
+		ft.addObl(fr, "inv-init", fmt.Sprintf("%sL%d.%d", fr.tag, ord, i+1), reach, t, cl.Src, cl.Tags, hints).File = cl.File
 	}
 	// havoc
 	nst := st.clone()
@@ -979,7 +1099,7 @@ func (fr *frame) loopHeader(h *ssa.BasicBlock, body map[*ssa.BasicBlock]bool, st
 		nv := ft.fresh("hv_"+mangle(k), s)
 		nst.vars[k] = nv
 		ft.noteWrite(h, k)
-		if strings.HasPrefix(k, "H|") {
+		if strings.HasPrefix(k, "H|") && ft.frameOK[h][k] {
 			// automatic frame invariant: cells that existed before the loop are not modified by it
 			// (assumed here, asserted on every back edge)
 			oldT := ft.stateGet(st, k, s)
@@ -1012,6 +1132,9 @@ func (fr *frame) loopHeader(h *ssa.BasicBlock, body map[*ssa.BasicBlock]bool, st
 			continue
 		}
 		ft.fact("(=> " + reach + " " + t + ")")
+	}
+	if fr.top {
+		fr.pendingLoopCover = append(fr.pendingLoopCover, h)
 	}
 	return nst
 }
@@ -1083,8 +1206,7 @@ func (fr *frame) backEdge(src, h *ssa.BasicBlock, st *State) {
 			continue
 		}
 		o := ft.addObl(fr, "inv-pres", fmt.Sprintf("%sL%d.%d", fr.tag, ord, i+1), guard, t, cl.Src, cl.Tags, hints)
-		// the assert-then-assume fact must not leak: it talks about back-edge values only, which is fine
-		_ = o
+		o.File = cl.File
 	}
 	for phi, v := range saved {
 		fr.vals[phi] = v
